@@ -32,8 +32,11 @@ def run(chk, repo: Repo):
                        "current value (legacy: every step override reads its current-value parameter or is a tabled closed-form draw); advanced num_sampling_steps times", floor=4)
     chk.rule("C09-R4", "each sweep is followed by a store of every block; continuation resumes from the last stored sample; sample/warmup have no effect on the sampler outside the sweep loop", floor=5)
     chk.rule("C09-R5", "samplers are constructed on target() (see C11-R5)", floor=2)
-    chk.rule("C09-R6", "target-derived cached state is not restored across a change of the block sampler's target", floor=1)
+    chk.rule("C09-R6", "target-derived cached state is not restored across a change of the block sampler's target; what the initialisation hooks "
+                       "(_initialize, _pre_warmup, _pre_sample) derive does not depend on the value the attribute had before: after HybridGibbs re-targets a "
+                       "block and reinitialises it, its state is that of a fresh sampler on the new conditional", floor=1)
     _hybrid(chk, repo)
+    _r6_fresh_initialisation(chk, repo)
     _legacy(chk, repo)
 
 
@@ -69,6 +72,48 @@ def _every_path_through_body_passes(g: CFG, loop_iter_node, pred) -> bool:
     avoid = {n.id for n in g.nodes if pred(n)}
     reach = g.reachable_from(starts, avoid_nodes=avoid)
     return loop_iter_node.id not in reach
+
+
+# a stored value may read the attribute it replaces only to normalise the CONFIGURED value (same information, other shape)
+_SELF_READ_OK = {("CWMH", "_initialize", "scale"): "a scalar scale is broadcast to one entry per component; the value is the configured one"}
+
+
+def _r6_fresh_initialisation(chk, repo):
+    from .common import canon_fn
+    n, bad = 0, []
+    for ci in repo.classes_in("cuqi/experimental/mcmc/"):
+        for name in ("_initialize", "initialize", "_pre_warmup", "_pre_sample"):
+            if name not in ci.methods:
+                continue
+            fn = ci.methods[name]
+            v = canon_fn(repo, ci, fn, 2)
+            ex = Expander(v)
+            for nd in ex.cfg.nodes:
+                a = nd.ast
+                if nd.kind != "stmt" or not isinstance(a, (ast.Assign, ast.AugAssign)):
+                    continue
+                for t in (a.targets if isinstance(a, ast.Assign) else [a.target]):
+                    p = path_of(t)
+                    if not (p and p.startswith("self.") and p.count(".") == 1):
+                        continue
+                    n += 1
+                    attr = p[5:]
+                    e = ex.expand(a.value, nd)
+                    reads = isinstance(a, ast.AugAssign) or any(path_of(x) == p for x in ast.walk(e)) or any(
+                        isinstance(c, ast.Call) and call_name(c) == "getattr" and len(c.args) >= 2 and path_of(c.args[0]) == "self"
+                        and isinstance(c.args[1], ast.Constant) and c.args[1].value == attr for c in ast.walk(e))
+                    if reads and (ci.name, name, attr) not in _SELF_READ_OK:
+                        bad.append((ci, fn, a, attr))
+    for ci, fn, a, attr in bad:
+        chk.fail("C09-R6", f"{ci.qual}.{fn.name}/fresh:{attr}", site(repo, a),
+                 f"`{unparse(a)[:90]}` derives `{attr}` from the value it had before the (re)initialisation: a block sampler that HybridGibbs re-targets and "
+                 f"reinitialises every sweep carries information from every earlier conditional (e.g. a running minimum of a step size) into the current one, "
+                 f"so the block update is not the update of a fresh sampler on the current conditional", a)
+    if not bad:
+        chk.ok("C09-R6", "cuqi/experimental/mcmc/*/fresh-initialisation", "", f"{n} attribute stores in initialisation hooks, none reads the attribute it replaces "
+               f"({len(_SELF_READ_OK)} tabled normalisation)")
+    if n < 30:
+        raise AnchorError(f"{n} attribute stores in the initialisation hooks of the experimental samplers found, at least 30 confirmed by hand")
 
 
 def _hybrid(chk, repo):
